@@ -461,6 +461,8 @@ def run(ctx):
         return finish(ctx)
     cases = gen(ctx)
     lines = [c[0] for c in cases]
+    if os.environ.get("VERIF_DUMP_OPS"):
+        open(os.environ["VERIF_DUMP_OPS"], "w").write("\n".join(lines) + "\n")
     for v in (["asan"] if ctx.tier == "quick" else ["asan", "small"]):
         exe, log = core.build_harness("C07", v)
         if exe is None:
